@@ -5,8 +5,12 @@ CONSTANTS
   ThetaVecs <- Theta2
   AllCompletions = TRUE
   FW = 8
+  MaxRounds = 1
+  MaxRefresh = 1
+  PrivateSlice = TRUE
+  KeepHist = FALSE
   CheckRand = FALSE
   RandWMax = 4
   CheckUnif = FALSE
   UnifNMax = 0
-INVARIANTS TypeOK Distinct StickyKept ElseResetWithFilter Participants LaunchedAreParticipants OneValuePerParticipant NoPathError ResetExactlyNonSticky
+INVARIANTS TypeOK TableIntact Distinct StickyKept ElseResetWithFilter Participants LaunchedAreParticipants OneValuePerParticipant NoPathError ResetExactlyNonSticky
